@@ -44,7 +44,7 @@ def run(tier):
     rxfile = os.path.join(vlib.BUILD, "c16-regex-%s.tsv" % tier)
     args = [["--depth", b["depth"], "--nodedup-depth", b["nodedup"], "--shard", i, "--nshards", NSH] +
             (["--regex-out", rxfile, "--regex-tokens", b["rtok"], "--regex-len", b["rlen"]] if i == 0 else ["--depth", 0]) +
-            (["--regex-options-tokens", b["rotok"]] if i == 1 else []) + (["--long-runs", 1] if i == 2 else [])
+            ["--regex-options-tokens", b["rotok"]] + (["--long-runs", 1] if i == 2 else [])
             for i in range(NSH)]
     parts = seqxrun.run_shards(exe, args, timeout=3000)
     fails = [p for p in parts if "_crash" in p or "_timeout" in p]
